@@ -40,9 +40,14 @@ struct Boundary {
 /// Decode `m` flat with stop-on-block-boundary under `ops`; optionally rebuild the decoder from the
 /// boundary record at boundary number `rebuild_at` (0-based). Returns (output, final status, consumed,
 /// boundaries).
-fn run_bb(m: &[u8], zlib: bool, ops: &[Vec<i64>], rebuild_at: Option<usize>, cap: usize, st: &mut Stats) -> Result<(Vec<u8>, TINFLStatus, usize, Vec<Boundary>), Violation> {
+fn run_bb(m: &[u8], zlib: bool, ops: &[Vec<i64>], rebuild_at: Option<usize>, cap: usize, ring: Option<&[u8]>, st: &mut Stats) -> Result<(Vec<u8>, TINFLStatus, usize, Vec<Boundary>), Violation> {
     let mut r = DecompressorOxide::new();
-    let mut out = vec![0xC3u8; cap];
+    // flat buffer of `cap` bytes, or a power-of-two ring (wrapping mode) with the given initial contents
+    let mut out = match ring {
+        Some(init) => init.to_vec(),
+        None => vec![0xC3u8; cap],
+    };
+    let mask = if ring.is_some() { out.len() - 1 } else { usize::MAX };
     let mut out_pos = 0usize; // position in `out`
     let mut base = 0usize; // plaintext offset of out[0]
     let mut sink: Vec<u8> = Vec::new();
@@ -52,7 +57,7 @@ fn run_bb(m: &[u8], zlib: bool, ops: &[Vec<i64>], rebuild_at: Option<usize>, cap
     let mut bounds: Vec<Boundary> = Vec::new();
     let mut opi = 0usize;
     let mut tail = 0usize;
-    let flags0 = TINFL_FLAG_USING_NON_WRAPPING_OUTPUT_BUF | TINFL_FLAG_STOP_ON_BLOCK_BOUNDARY | if zlib { TINFL_FLAG_PARSE_ZLIB_HEADER } else { 0 };
+    let flags0 = if ring.is_some() { 0 } else { TINFL_FLAG_USING_NON_WRAPPING_OUTPUT_BUF } | TINFL_FLAG_STOP_ON_BLOCK_BOUNDARY | if zlib { TINFL_FLAG_PARSE_ZLIB_HEADER } else { 0 };
     loop {
         let dl = if opi < ops.len() {
             ops[opi][0].max(0) as usize
@@ -70,7 +75,7 @@ fn run_bb(m: &[u8], zlib: bool, ops: &[Vec<i64>], rebuild_at: Option<usize>, cap
         st.inc("calls");
         st.inc("steps");
         sink.extend_from_slice(&out[out_pos..out_pos + w]);
-        out_pos += w;
+        out_pos = if ring.is_some() { (out_pos + w) & mask } else { out_pos + w };
         consumed += c;
         let _ = base;
         match s {
@@ -103,12 +108,23 @@ fn run_bb(m: &[u8], zlib: bool, ops: &[Vec<i64>], rebuild_at: Option<usize>, cap
                         miniz_oxide::inflate::core::BlockBoundaryState { num_bits: rec.num_bits, bit_buf: rec.bit_buf, ..Default::default() }
                     };
                     r = DecompressorOxide::from_block_boundary_state(&rec2);
-                    let keep = sink.len().min(32768);
-                    let mut nb = vec![0xEEu8; cap];
-                    nb[..keep].copy_from_slice(&sink[sink.len() - keep..]);
-                    out = nb;
-                    out_pos = keep;
-                    base = sink.len() - keep;
+                    if ring.is_some() {
+                        // a NEW ring holding only the last 32 KiB (or one ring) of output at their ring positions
+                        let keep = sink.len().min(32768).min(out.len());
+                        let mut nb = vec![0xEEu8; out.len()];
+                        for i in 0..keep {
+                            let off = sink.len() - keep + i;
+                            nb[off & mask] = sink[off];
+                        }
+                        out = nb;
+                    } else {
+                        let keep = sink.len().min(32768);
+                        let mut nb = vec![0xEEu8; cap];
+                        nb[..keep].copy_from_slice(&sink[sink.len() - keep..]);
+                        out = nb;
+                        out_pos = keep;
+                        base = sink.len() - keep;
+                    }
                     st.inc("fault.crash_restart_boundary_record");
                 }
             }
@@ -118,7 +134,7 @@ fn run_bb(m: &[u8], zlib: bool, ops: &[Vec<i64>], rebuild_at: Option<usize>, cap
                 }
             }
             TINFLStatus::HasMoreOutput => {
-                if out_pos == out.len() {
+                if ring.is_none() && out_pos == out.len() {
                     return Ok((sink, s, consumed, bounds));
                 }
             }
@@ -140,7 +156,7 @@ pub fn exec(s: &Script, st: &mut Stats) -> Result<RunInfo, Violation> {
         zlib,
         ring: if kind == 3 {
             Some((32768, &wrapper_ring[..]))
-        } else if mode == 1 && kind != 4 {
+        } else if mode == 1 {
             Some((ring_sz, &ring_init[..]))
         } else {
             None
@@ -206,7 +222,8 @@ pub fn exec(s: &Script, st: &mut Stats) -> Result<RunInfo, Violation> {
         _ => {
             // block boundary
             let cap = v.out.len() + 32768 + 600;
-            let (out0, s0, c0, b0) = run_bb(&m, zlib, &s.ops, None, cap, st)?;
+            let ring: Option<&[u8]> = if mode == 1 { Some(&ring_init[..]) } else { None };
+            let (out0, s0, c0, b0) = run_bb(&m, zlib, &s.ops, None, cap, ring, st)?;
             hh.bytes(&out0);
             hh.u(s0 as i32 as u64);
             hh.u(c0 as u64);
@@ -222,12 +239,17 @@ pub fn exec(s: &Script, st: &mut Stats) -> Result<RunInfo, Violation> {
                 return viol("C19.boundary_mode_completes", format!("valid stream with stop-on-boundary ended with {:?} ({} of {} bytes)", s0, out0.len(), v.out.len()));
             }
             let at = s.c_or("snap_at", -1);
-            let idxs: Vec<usize> = if at >= 0 { vec![at as usize] } else { (0..b0.len().min(64)).collect() };
+            let mut idxs: Vec<usize> = if at >= 0 { vec![at as usize] } else { (0..b0.len().min(64)).collect() };
+            if ring.is_some() && (v.prehistory_reads > 0 || ring_sz > 32768) {
+                // a corrupt stream that copies from before its own start reads the ring's initial contents, which
+                // the documented record (last 32 KiB of output) does not include: nothing to compare
+                idxs.clear();
+            }
             for j in idxs {
                 if j >= b0.len() {
                     continue;
                 }
-                let (out1, s1, c1, _) = run_bb(&m, zlib, &s.ops, Some(j), cap, st)?;
+                let (out1, s1, c1, _) = run_bb(&m, zlib, &s.ops, Some(j), cap, ring, st)?;
                 if out1 != out0 {
                     let nn = out1.len().min(out0.len());
                     let idx = (0..nn).find(|&i| out1[i] != out0[i]).unwrap_or(nn);
@@ -273,6 +295,23 @@ pub fn gen_c19(rng: &mut Rng, _i: u64, tier: Tier) -> Script {
             // chunked delivery or everything at once
             if rng.chance(1, 2) {
                 s.ops = gen::core_ops(rng, n + 4, style & !0xC).iter().map(|o| vec![o[0]]).collect();
+            }
+            if rng.chance(1, 3) {
+                // wrapping output buffer: blocks may end exactly where the ring ends
+                let mut b = 0usize;
+                while (1usize << b) < vs.max_dist {
+                    b += 1;
+                }
+                if zlib {
+                    b = b.max(vs.cinfo as usize + 8);
+                }
+                if vs.plain_len > 2000 {
+                    b = b.max(8);
+                }
+                let bits = if s.faults.is_empty() { rng.range(b.min(15), 15) } else { 15 };
+                s.set("mode", 1);
+                s.set("ring_bits", bits as i64);
+                s.set("ringfill", rng.below(1 << 30) as i64);
             }
         }
         _ => {
